@@ -518,7 +518,7 @@ func TestVerifC04_OrderAcrossQueryHistory(t *testing.T) {
 			defer pcMu.Unlock()
 			return build(cache, patternCache, true, string(runes))
 		}, sortOn, tac, h.eventBox, revision{})
-		h.matcher.partitions = rapid.SampledFrom([]int{1, 2, 8}).Draw(t, "partitions")
+		h.matcher.partitions = rapid.SampledFrom([]int{1, 2, 3, 8}).Draw(t, "partitions")
 		h.matcher.slab = make([]*util.Slab, h.matcher.partitions)
 		go h.matcher.Loop()
 		go h.consume()
@@ -528,8 +528,14 @@ func TestVerifC04_OrderAcrossQueryHistory(t *testing.T) {
 			<-h.done
 		}()
 		queries := rapid.SampledFrom([][]string{{"a", "ab", "b"}, {"a", "ab", ""}, {"b", "ba", "!a"}, {"a", "a b", "ab"}}).Draw(t, "queries")
-		n := rapid.SampledFrom([]int{40, 150, 320}).Draw(t, "n")
+		n := rapid.SampledFrom([]int{40, 100, 150, 200, 320}).Draw(t, "n")
+		// few matching lines per chunk (lists of at most 20 matches of a full chunk are kept per chunk
+		// and reused) or many
+		density := rapid.SampledFrom([]int{4, 10, 18, 50, 100}).Draw(t, "density")
 		for _, l := range gen.Lines(t, queries[:2], n, n, 14) {
+			if rapid.IntRange(0, 99).Draw(t, "hit") >= density {
+				l = "~~~"
+			}
 			h.cl.Push([]byte(l))
 		}
 		var trace []string
